@@ -56,12 +56,30 @@ def op_term(o):
         return f"[OGive {o[1]} {o[2]}%nat]"
     if k == "O":
         return f"[OOpen {o[1]}]"
+    if k == "R":
+        return f"[OStart {o[1]}]"
+    if k == "RF":
+        return f"[OFailStart {o[1]}]"
+    if k == "SS":
+        return f"[OSub {o[1]} (mkC {o[2]} {o[3]} {o[4]} {o[5]}); OSettle]"
     raise ValueError(o)
+
+
+def running_from_start(sc):
+    """receivers the harness spawns and lets reach Running before the first operation: every
+    actor mentioned that has no R / RF / SS operation (those start parked in pre_start)"""
+    late = {o[1] for o in sc["ops"] if o[0] in ("R", "RF", "SS")}
+    seen = []
+    for o in sc["ops"]:
+        if o[0] in ("S", "K", "H", "G", "O") and o[1] not in late and o[1] not in seen:
+            seen.append(o[1])
+    return seen
 
 
 def sc_term(sc):
     p = "[" + "; ".join(f"({a}, {r})" for a, r in sc["poison"]) + "]"
-    ops = "[" + "; ".join(op_term(o) for o in sc["ops"]) + "]"
+    pre = [f"[OStart {a}]" for a in running_from_start(sc)]
+    ops = "[" + "; ".join(pre + [op_term(o) for o in sc["ops"]]) + "]"
     return f"(mkScen {p} (List.concat {ops}))"
 
 
@@ -101,12 +119,52 @@ def gen_exhaustive(cap, maxlen):
     return cases
 
 
+def gen_exhaustive_starting(cap, maxlen):
+    """subscribers that are subscribed before they are Running: actor 2 is spawned with
+    spawn_instant and parked in pre_start (subscribed from the driver), actor 3 subscribes itself
+    from inside pre_start; R/RF let a parked pre_start succeed/fail."""
+    big = ("b", cap + 2)
+    alpha = ["p", big, ("S", 2) + CONV_ALL, ("SS", 3, 2, 0, 1, 0), ("R", 2), ("R", 3), ("RF", 2), ("T",), ("K", 2)]
+    cases = []
+    for n in range(1, maxlen + 1):
+        for seq in itertools.product(alpha, repeat=n):
+            tup = [o for o in seq if isinstance(o, tuple)]
+            if sum(1 for o in tup if o[0] == "SS") > 1:
+                continue
+            if not any(o[0] in ("S", "SS") for o in tup):
+                continue
+            # R/RF at most once per actor, R 3 only after SS 3
+            bad = False
+            done = set()
+            spawned3 = False
+            for o in tup:
+                if o[0] == "SS":
+                    spawned3 = True
+                if o[0] in ("R", "RF"):
+                    if o[1] in done or (o[1] == 3 and not spawned3):
+                        bad = True
+                    done.add(o[1])
+            if bad:
+                continue
+            ops = list(seq) + [("T",)]
+            if not any(o[0] in ("R", "RF") and o[1] == 2 for o in tup):
+                # actor 2 is of the parked kind in every case of this family
+                ops = ops + [("R", 2)]
+            cases.append({"poison": [], "ops": renumber(ops), "kind": "exh.starting"})
+    return cases
+
+
 def gen_random(rng, cap, n):
     cases = []
     sizes = [1, 1, 2, 3, 5, max(1, cap - 1), cap, cap + 1, cap + 1, cap + 5, 2 * cap + 3, 40]
     for _ in range(n):
         n_act = rng.choice([1, 2, 3, 4])
         multi = {a for a in range(n_act) if rng.random() < 0.4}   # may be subscribed repeatedly
+        # start-up kind: 'run' Running before the first operation; 'park' spawn_instant, parked in
+        # pre_start until R/RF; 'self' spawned by its first subscription, which it makes itself
+        kind = {a: rng.choice(["run", "run", "run", "park", "park", "self"]) for a in range(n_act)}
+        unstarted = {a for a in range(n_act) if kind[a] == "park"}   # spawned, still Starting
+        unspawned = {a for a in range(n_act) if kind[a] == "self"}
         subscribed = set()
         convs = {}
         ops = []
@@ -122,8 +180,18 @@ def gen_random(rng, cap, n):
                     conv = (md, rng.randrange(md) if md else 0, rng.choice([1, 1, 2]), rng.choice([0, 0, 7]))
                     subscribed.add(a)
                     convs.setdefault(a, []).append(conv)
-                    ops.append(("S", a) + conv)
+                    if a in unspawned:
+                        unspawned.discard(a)
+                        unstarted.add(a)
+                        ops.append(("SS", a) + conv)
+                    else:
+                        ops.append(("S", a) + conv)
                     continue
+            if unstarted and rng.random() < 0.12:
+                a = rng.choice(sorted(unstarted))
+                unstarted.discard(a)
+                ops.append(("R", a) if rng.random() < 0.8 else ("RF", a))
+                continue
             if r < 0.55:
                 if style == "bursty" or rng.random() < 0.35:
                     ops.append(("b", rng.choice(sizes)))
@@ -132,7 +200,8 @@ def gen_random(rng, cap, n):
             elif r < 0.75:
                 ops.append(("T",))
             elif r < (0.88 if style in ("churn", "mixed") else 0.80):
-                ops.append(("K", rng.randrange(n_act)))
+                live = [a for a in range(n_act) if a not in unspawned]
+                ops.append(("K", rng.choice(live)) if live else "p")
             else:
                 single = [a for a in range(n_act) if a not in multi]
                 if single and (style == "gated" or rng.random() < 0.5):
@@ -145,6 +214,13 @@ def gen_random(rng, cap, n):
             for a in range(n_act):
                 if a not in multi:
                     ops.append(("O", a))
+        for a in sorted(unstarted):
+            if rng.random() < 0.7:
+                ops.append(("R", a))
+        # an actor of the parked kind needs an R/RF op for the harness to spawn it that way
+        for a in range(n_act):
+            if kind[a] == "park" and not any(o[0] in ("R", "RF") and o[1] == a for o in ops if isinstance(o, tuple)):
+                ops.append(("R", a))
         ops.append(("T",))
         ops = renumber(ops)
         total = n_pubs({"ops": ops})
@@ -222,6 +298,7 @@ def run(chk):
 
     cases = load_corpus()
     cases += gen_exhaustive(gen_cap, 4 if quick else 5)
+    cases += gen_exhaustive_starting(gen_cap, 4 if quick else 5)
     cases += gen_random(chk.rng, gen_cap, (1500 if quick else 20000) * factor)
     lines = [sc_line(c) for c in cases]
     impl1 = run_harness(b1, "eng_outport", lines, shards=8)
@@ -246,6 +323,8 @@ def run(chk):
             chk.count("op." + o[0])
         if c["poison"]:
             chk.count("with_poison")
+        if any(o[0] in ("R", "RF", "SS") for o in c["ops"]):
+            chk.count("with_subscriber_subscribed_before_Running")
         line = sc_line(c)
         nontrivial = any(len(x) > 0 for x in m2)
         if nontrivial:
@@ -277,9 +356,10 @@ def run(chk):
     chk.coverage["traces_validated_against_impl"] = 2 * len(cases)
     chk.coverage["distinct_nontrivial"] = len(distinct)
     chk.coverage["rule"] = ("exhaustive: all operation sequences of length <= %d over {publish, burst of ring+2, subscribe a0, "
-                            "subscribe a1 (even only), settle, stop a0, hold a1, give a1 1} followed by a settle; random: seeded "
+                            "subscribe a1 (even only), settle, stop a0, hold a1, give a1 1} followed by a settle, and the same lengths over "
+                            "{publish, burst, subscribe parked a2, self-subscribing a3, start a2, start a3, fail start a2, settle, stop a2}; random: seeded "
                             "scenarios of 6-40 operations over up to 4 receivers (re-subscription, bursts around the ring size, "
-                            "stops, gated handlers, failing handlers, dropping converters); both builds on every case. "
+                            "stops, gated handlers, failing handlers, dropping converters, receivers that are still Starting when subscribed / that subscribe from pre_start / whose pre_start fails); both builds on every case. "
                             "non-trivial = some subscription receives at least one item; distinct = distinct scenario lines"
                             % (4 if quick else 5))
     chk.coverage["exhaustive_part"] = "operation sequences of length <= %d over an 8-letter alphabet" % (4 if quick else 5)
